@@ -43,6 +43,11 @@ FAM = [
     ("retry_on_topic_class", retry_class, ["cur_topic"]),
     ("retry_on_leaderless_partition", retry_part, ["cur_retry", "cur_topic"]),
 ]
+BRK = [
+    ("brokers_listed_known", "forall k :: 0 <= k && k < len(data.Brokers) ==> client.brokers[data.Brokers[k].id] != nil"),
+    ("brokers_address_current", "forall id int32 :: haskey(client.brokers, id) ==> exists k :: 0 <= k && k < len(data.Brokers) && data.Brokers[k].id == id && client.brokers[id] != nil && client.brokers[id].addr == data.Brokers[k].addr"),
+    ("brokers_absent_dropped", "forall id int32 :: haskey(client.brokers, id) ==> exists k :: 0 <= k && k < len(data.Brokers) && data.Brokers[k].id == id"),
+]
 MON = ["cached_has_metadata", "all_sorted", "all_only_known", "all_complete", "writable_sorted",
        "writable_only_available", "writable_complete"]
 KEYED = "forall t string, p int32 :: haskey(client.metadata, t) ==> client.metadata[t] != nil && allocated(client.metadata[t]) && (haskey(client.metadata[t], p) ==> client.metadata[t][p] != nil && client.metadata[t][p].ID == p)"
@@ -66,26 +71,33 @@ out.append('''// A-close: the client is not closed between the Closed() test and
 N = "len(data.Topics)"
 for l, f, u in FAM:
     out.append("//@   ensures%s acquired() ==> (%s)\n" % (lab(l, []), f(N, N)))
-out.append("//@   loop 0: invariant client.metadata != nil && client.metadataTopics != nil && client.cachedPartitionsResults != nil\n")
-out.append("//@   loop 0: invariant[keyed] %s\n" % KEYED)
+for l, e in BRK:
+    out.append("//@   ensures[%s] acquired() ==> (%s)\n" % (l, e))
+out.append("//@   loopname topics: range data.Topics\n//@   loopname partitions: range topic.Partitions\n")
+out.append("//@   loop topics: invariant client.metadata != nil && client.metadataTopics != nil && client.cachedPartitionsResults != nil\n")
+out.append("//@   loop topics: invariant[keyed] %s\n" % KEYED)
 for l, f, u in FAM:
-    out.append("//@   loop 0: invariant%s %s\n" % (lab(l, u), f("$i", "$i")))
+    out.append("//@   loop topics: invariant%s %s\n" % (lab(l, u), f("$i", "$i")))
 for m in MON:
-    out.append("//@   loop 0: invariant lockinv(client.lock, %s)\n" % m)
-out.append("//@   loop 1: invariant client.metadata != nil && client.metadata[topic.Name] != nil && haskey(client.metadata, topic.Name)\n")
-out.append("//@   loop 1: invariant !haskey(client.cachedPartitionsResults, topic.Name)\n")
-out.append("//@   loop 1: invariant[keyed] %s\n" % KEYED)
-out.append("//@   loop 1: invariant[cur_topic] 0 <= $i0 && $i0 < len(data.Topics) && topic == data.Topics[$i0] && (topic.Err == ErrNoError || topic.Err == ErrLeaderNotAvailable) && haskey(client.metadataTopics, topic.Name) && (topic.Err == ErrLeaderNotAvailable ==> retry)\n")
-out.append("//@   loop 1: invariant[cur_listed] forall j :: 0 <= j && j < $i ==> haskey(client.metadata[topic.Name], topic.Partitions[j].ID)\n")
-out.append("//@   loop 1: invariant[cur_only] forall p int32 :: haskey(client.metadata[topic.Name], p) ==> exists j :: 0 <= j && j < $i && topic.Partitions[j].ID == p && client.metadata[topic.Name][p] == topic.Partitions[j]\n")
-out.append("//@   loop 1: invariant[cur_retry] forall j :: 0 <= j && j < $i && topic.Partitions[j].Err == ErrLeaderNotAvailable ==> retry\n")
-out.append("//@   loop 1: invariant[retry_cause_cur] retry ==> (exists k :: 0 <= k && k < $i0 && %s) || topic.Err == ErrLeaderNotAvailable || exists j :: 0 <= j && j < $i && topic.Partitions[j].Err == ErrLeaderNotAvailable\n" % cause)
+    out.append("//@   loop topics: invariant lockinv(client.lock, %s)\n" % m)
+for l, e in BRK:
+    out.append("//@   loop topics: invariant[%s] %s\n" % (l, e))
+out.append("//@   loop partitions: invariant client.metadata != nil && client.metadata[topic.Name] != nil && haskey(client.metadata, topic.Name)\n")
+out.append("//@   loop partitions: invariant !haskey(client.cachedPartitionsResults, topic.Name)\n")
+out.append("//@   loop partitions: invariant[keyed] %s\n" % KEYED)
+out.append("//@   loop partitions: invariant[cur_topic] 0 <= $i_topics && $i_topics < len(data.Topics) && topic == data.Topics[$i_topics] && (topic.Err == ErrNoError || topic.Err == ErrLeaderNotAvailable) && haskey(client.metadataTopics, topic.Name) && (topic.Err == ErrLeaderNotAvailable ==> retry)\n")
+out.append("//@   loop partitions: invariant[cur_listed] forall j :: 0 <= j && j < $i ==> haskey(client.metadata[topic.Name], topic.Partitions[j].ID)\n")
+out.append("//@   loop partitions: invariant[cur_only] forall p int32 :: haskey(client.metadata[topic.Name], p) ==> exists j :: 0 <= j && j < $i && topic.Partitions[j].ID == p && client.metadata[topic.Name][p] == topic.Partitions[j]\n")
+out.append("//@   loop partitions: invariant[cur_retry] forall j :: 0 <= j && j < $i && topic.Partitions[j].Err == ErrLeaderNotAvailable ==> retry\n")
+out.append("//@   loop partitions: invariant[retry_cause_cur] retry ==> (exists k :: 0 <= k && k < $i_topics && %s) || topic.Err == ErrLeaderNotAvailable || exists j :: 0 <= j && j < $i && topic.Partitions[j].Err == ErrLeaderNotAvailable\n" % cause)
 for l, f, u in FAM:
     if l == "retry_has_cause":
         continue
-    out.append("//@   loop 1: invariant%s %s\n" % (lab(l, ["cur_topic", "keyed"]), f("$i0", "$i0 + 1")))
+    out.append("//@   loop partitions: invariant%s %s\n" % (lab(l, ["cur_topic", "keyed"]), f("$i_topics", "$i_topics + 1")))
 for m in MON:
-    out.append("//@   loop 1: invariant lockinv(client.lock, %s)\n" % m)
+    out.append("//@   loop partitions: invariant lockinv(client.lock, %s)\n" % m)
+for l, e in BRK:
+    out.append("//@   loop partitions: invariant[%s] %s\n" % (l, e))
 out.append(END)
 text = "".join(out)
 
